@@ -71,7 +71,7 @@ def do_call(ex, st, e):
     if isinstance(o, LemmaSrc):
         return lemma_call(ex, st, o, args, e)
     if isinstance(o, SpecFun):
-        return mk_int(o.z(*[as_int(ctx, st, a, e) for a in args]))
+        return mk_int(o.z(*[spec_arg(ctx, st, a, e) for a in args]))
     if isinstance(o, types.BuiltinFunctionType) or o in (int, bool, len, abs, min, max, range, sum, bytearray, isinstance):
         return builtin_call(ex, st, o, args, kwargs, e)
     if isinstance(o, types.FunctionType):
@@ -89,6 +89,12 @@ def do_call(ex, st, e):
 
 
 # ---------------------------------------------------------------------------
+
+
+def spec_arg(ctx, st, a, e):
+    if a.k == "array":
+        return a.z
+    return as_int(ctx, st, a, e)
 
 
 def ghost_call(ex, st, name, e):
@@ -152,6 +158,14 @@ def ghost_call(ex, st, name, e):
     if name == "has":
         key = args[1].x
         return mk_bool(ctx.field_array(st, "has_" + key, AIB)[args[0].z])
+    if name in ("content", "elems"):
+        return SV("array", ctx.field_array(st, "elem", AIA)[args[0].z])
+    if name == "fpos":
+        return mk_int(ctx.field_array(st, "val_fpos", AII)[args[0].z])
+    if name in ("flen", "length"):
+        return mk_int(ctx.field_array(st, "len", AII)[args[0].z])
+    if name == "field":
+        return ex.load_field(st, args[0], args[1].x, e)
     if name == "assume_":
         ctx.assume(st, truth(ctx, st, args[0], e))
         ctx.notes.append("assume_ at line %d: %s" % (e.lineno, ast.unparse(e.args[0])))
@@ -194,15 +208,15 @@ def ghost_call(ex, st, name, e):
 def unfold_specfun(ex, st, sf, args, e):
     """Adds sf(args) == body[args] as a fact (body is a single return expression, evaluated in spec mode)."""
     ctx = ex.ctx
-    zs = [as_int(ctx, st, a, e) for a in args]
+    zs = [spec_arg(ctx, st, a, e) for a in args]
     body = frontend.strip_docstring(sf.node)
     if len(body) != 1 or not isinstance(body[0], ast.Return):
         raise Unsupported("spec function %s must be a single return expression" % sf.name, e)
     tmp = St(ctx)
     tmp.pc = list(st.pc)
     tmp.heap = dict(st.heap)
-    for (pn, _), z in zip(sf.params, zs):
-        tmp.env[pn] = mk_int(z)
+    for (pn, ann), z in zip(sf.params, zs):
+        tmp.env[pn] = SV("array", z) if ann in ("array", "bytes") else mk_int(z)
         tmp.defd[pn] = z3.BoolVal(True)
     fr = Frame("specfun:" + sf.name, sf.modname)
     fr.sidecar_globals = ctx.frames[-1].sidecar_globals
@@ -459,13 +473,16 @@ def fresh_of_type(ex, t, name):
         return SV("str", ctx.fresh(name))
     if t.startswith("tuple:"):
         return mk_tuple([fresh_of_type(ex, x, name + str(i)) for i, x in enumerate(t[6:].split(","))])
+    if t in ("array", "bytes"):
+        return SV("array", ctx.fresh(name, AII))
     if t in ("dict", "file", "opaque", "bytearray") or t.startswith(("list", "obj:", "dict:")):
         return mk_ref(ctx.fresh(name), t)
     raise Unsupported("type %s" % t)
 
 
-def eval_modifies(ex, st, contract, env):
-    """[(ref z3 term or None, heap array name)] for a contract's modifies clauses, evaluated in st with env."""
+def eval_modifies(ex, st, contract, env, with_cond=False):
+    """[(ref z3 term, heap array name[, cond])] for a contract's modifies clauses, evaluated in st with env.
+    A clause may be conditional:  `<target> if <cond> else None`."""
     ctx = ex.ctx
     out = []
     tmp = st.fork()
@@ -475,24 +492,31 @@ def eval_modifies(ex, st, contract, env):
     ctx.spec_mode = True
     try:
         for (txt, node) in contract.modifies:
+            cond = None
+            if isinstance(node, ast.IfExp):
+                cond = truth(ctx, tmp, ex.ev(tmp, node.test), node)
+                node = node.body
+            items = []
             if isinstance(node, ast.Subscript) and isinstance(node.slice, ast.Constant) and isinstance(node.slice.value, str):
                 base = ex.ev(tmp, node.value)
                 key = node.slice.value
-                out.append((base.z, "has_" + key))
+                items.append((base.z, "has_" + key))
                 for f in ex.field_arrays_of(key):
-                    out.append((base.z, f))
+                    items.append((base.z, f))
             elif isinstance(node, ast.Attribute):
                 base = ex.ev(tmp, node.value)
                 for f in ex.field_arrays_of(node.attr):
-                    out.append((base.z, f))
+                    items.append((base.z, f))
             elif isinstance(node, ast.Call) and isinstance(node.func, ast.Name) and node.func.id == "elems":
                 base = ex.ev(tmp, node.args[0])
-                out.append((base.z, "elem"))
+                items.append((base.z, "elem"))
             elif isinstance(node, ast.Call) and isinstance(node.func, ast.Name) and node.func.id == "length":
                 base = ex.ev(tmp, node.args[0])
-                out.append((base.z, "len"))
+                items.append((base.z, "len"))
             else:
                 raise Unsupported("modifies clause %s" % txt)
+            for (r, f) in items:
+                out.append((r, f, cond) if with_cond else (r, f))
     finally:
         ctx.spec_mode = saved
     return out
@@ -536,11 +560,13 @@ def contract_call(ex, st, contract, args, kwargs, e):
                 cz = ctx.fresh("may_raise_" + clsname, B)
             raise_conds.append((cls, cz))
         # 3. havoc
-        mods = eval_modifies(ex, st, contract, env)
+        mods = eval_modifies(ex, st, contract, env, with_cond=True)
         post = st.fork()
-        for (refz, field) in mods:
+        for (refz, field, cond) in mods:
             arr = ctx.field_array(post, field, None)
             fv = ctx.fresh("cv_" + field, arr.sort().range())
+            if cond is not None:
+                fv = z3.If(cond, fv, arr[refz])
             ctx.set_field_array(post, field, z3.Store(arr, refz, fv))
         # exceptional paths: heap havocked, nothing known
         for (cls, cz) in raise_conds:
@@ -662,11 +688,13 @@ def callee_effects(ex, st, call, assigned, stable_ref):
             argmap[k.arg] = stable_ref(k.value)
         env = {k: v for k, v in argmap.items() if v is not None}
         try:
-            for (refz, field) in eval_modifies(ex, st, c, env):
-                out.append((refz, field))
+            for (refz, field, cond) in eval_modifies(ex, st, c, env, with_cond=True):
+                out.append((refz, field, cond))
         except Unsupported:
             # could not resolve the target object: havoc the whole field
             for (txt, node) in c.modifies:
+                if isinstance(node, ast.IfExp):
+                    node = node.body
                 if isinstance(node, ast.Subscript):
                     key = node.slice.value
                     out.append((None, "has_" + key))
